@@ -18,6 +18,12 @@ returned by `urlsplit`.  Stems are compared "empty path stems aside", i.e. throu
 * converse: full in both modes (`under_of_stems_prefix`, `under_of_stems_prefix_sa`), only `u`
   needs to be without userinfo; suffix-aware hosts are compared lower-cased;
 * `serialize_prefix_iff`: with the `|` after every stem, stem-list prefix is string prefix.
+* the clause "the serialised LRU of `u` is a string prefix of that of `v`": `lru_prefix_of_under*`
+  state it for the serialisation of the CLEANED stems (`serialize_lru ∘ clean_trailing_path ∘
+  lru_stems`, a string no ural function returns); for `url_to_lru` itself it holds when `v`'s path
+  segments read as they are extend `u`'s (`UnderRaw`: `stems_prefix_of_under_raw`,
+  `lru_prefix_of_under_raw`, `url_to_lru_prefix_of_under_string`) and is false under `Under`
+  (`raw_lru_not_prefix_witness`: `http://a.com/` vs `http://a.com/x`).
 -/
 set_option linter.unusedSectionVars false
 set_option linter.unusedSimpArgs false
@@ -520,7 +526,8 @@ theorem stemsUrl_of_parts (sa : Bool) {u : Str} {pu : Parts} (hu : urlParts u = 
 
 /-- **forward, `suffix_aware = False`, on URL strings** (full): if the parser splits `u`, `v`
 (no `|`) into components in the grammar with `v` under `u`, then `lru_stems(u)` (empty path
-stems aside) is a prefix of `lru_stems(v)` and the serialised LRU a string prefix -/
+stems aside) is a prefix of `lru_stems(v)` and the serialisation of the cleaned stems a string
+prefix (for the string `url_to_lru` returns: `url_to_lru_prefix_of_under_string`) -/
 theorem lru_prefix_of_under_string (u v : Str) (hbu : '|' ∉ u) (hbv : '|' ∉ v) (pu pv : Parts)
     (hu : urlParts u = some pu) (hv : urlParts v = some pv)
     (hwu : wfNetloc pu.netloc = true) (hwv : wfNetloc pv.netloc = true)
